@@ -19,6 +19,7 @@ pub mod reload;
 pub mod report;
 pub mod rng;
 pub mod scen;
+pub mod trees;
 pub mod util;
 
 pub use report::{Args, Report};
